@@ -56,13 +56,13 @@ def compare(case, impl_line):
     session is not a usable specification); otherwise 'kind: message'"""
     if impl_line.startswith("NOTRUN"):
         return None       # not executed: an earlier case of the same shard hung (reported there)
-    if impl_line == "PANIC" or impl_line.startswith(("ABORT", "TIMEOUT")) or " PANIC" in impl_line:
-        return "panic: the implementation panicked or hung (%s)" % impl_line[:120]
     st, exp = expected(case)[:2]
     if st == "BUG":
         return "oracle-bug: the reference interpreter crashed: %s" % exp
     if st != "OK":
-        return None
+        return None       # not a usable specification (non-terminating within the limit, or unspecified by R7RS)
+    if impl_line == "PANIC" or impl_line.startswith(("ABORT", "TIMEOUT")) or " PANIC" in impl_line:
+        return "panic: the implementation panicked or hung (%s)" % impl_line[:120]
     if R.match_line(exp, impl_line):
         return None
     ke, ka = kinds(exp), kinds(impl_line)
